@@ -215,3 +215,677 @@ Proof.
     + apply Permutation_sym. apply (perm_insert_col _ (fun c => pair_ev c (proj c r) (hb_get hb1 c)) c0 cols cols_nodup Hc0).
 Qed.
 End Pairing.
+
+(* ================================================================== 3. sorting glue *)
+Open Scope Q_scope.
+
+Lemma Qle_bool_total a b : Qle_bool a b = false -> b <= a.
+Proof. intro H. apply Qle_bool_false in H. apply Qlt_le_weak. exact H. Qed.
+
+Lemma insert_by_perm {A} (key : A -> Q) x l : Permutation (insert_by key x l) (x :: l).
+Proof.
+  induction l as [|y r IH]; cbn [insert_by]; [reflexivity|].
+  destruct (Qle_bool (key x) (key y)); [reflexivity|].
+  apply perm_trans with (y :: x :: r); [apply perm_skip; exact IH|apply perm_swap].
+Qed.
+Lemma sort_by_perm {A} (key : A -> Q) l : Permutation (sort_by key l) l.
+Proof.
+  induction l as [|x r IH]; [reflexivity|]. cbn [sort_by fold_right].
+  apply perm_trans with (x :: sort_by key r); [apply insert_by_perm|apply perm_skip; exact IH].
+Qed.
+
+Fixpoint sorted_key {A} (key : A -> Q) (l : list A) : Prop :=
+  match l with [] => True | x :: r => Forall (fun y => key x <= key y) r /\ sorted_key key r end.
+
+Lemma insert_by_sorted {A} (key : A -> Q) x l : sorted_key key l -> sorted_key key (insert_by key x l).
+Proof.
+  induction l as [|y r IH]; intro S; cbn [insert_by]; [cbn; auto|].
+  destruct S as [Sy Sr]. destruct (Qle_bool (key x) (key y)) eqn:E.
+  - apply Qle_bool_iff in E. cbn [sorted_key]. split; [|split; assumption].
+    constructor; [exact E|]. eapply Forall_impl; [|exact Sy]. intros a Ha. cbn beta in Ha. apply Qle_trans with (key y); auto.
+  - apply Qle_bool_total in E. cbn [sorted_key]. split; [|apply IH; exact Sr].
+    apply (Permutation_Forall (Permutation_sym (insert_by_perm key x r))). constructor; assumption.
+Qed.
+Lemma sort_by_sorted {A} (key : A -> Q) l : sorted_key key (sort_by key l).
+Proof. induction l as [|x r IH]; [exact I|]. cbn [sort_by fold_right]. apply insert_by_sorted. exact IH. Qed.
+
+Definition tempo_of (e : ev) : list (Q * Q) := match e with EBpm m b => [(m, b)] | _ => [] end.
+
+Lemma insert_front (m b : Q) L : Forall (fun t => m <= fst t) L -> insert_by fst (m, b) L = (m, b) :: L.
+Proof.
+  destruct L as [|t r]; [reflexivity|]. intro H. inversion H as [|? ? H1 _]; subst. cbn [insert_by fst].
+  apply Qle_bool_iff in H1. rewrite H1. reflexivity.
+Qed.
+
+Lemma tempo_of_key e t : In t (tempo_of e) -> fst t = key_of e.
+Proof. destruct e; cbn; intro H; try contradiction. destruct H as [<-|[]]. reflexivity. Qed.
+
+Lemma tempo_insert x S : sorted_key key_of S ->
+  flat_map tempo_of (insert_by key_of x S)
+  = match x with EBpm m b => insert_by fst (m, b) (flat_map tempo_of S) | _ => flat_map tempo_of S end.
+Proof.
+  induction S as [|z S' IH]; intro Hs.
+  - destruct x; reflexivity.
+  - destruct Hs as [Hz Hs']. cbn [insert_by]. destruct (Qle_bool (key_of x) (key_of z)) eqn:E.
+    + cbn [flat_map]. destruct x as [m b| | |]; try reflexivity. cbn [tempo_of app].
+      symmetry. apply insert_front. apply Qle_bool_iff in E. cbn [key_of ev_measure] in E.
+      apply Forall_forall. intros t Ht. apply in_app_or in Ht as [Ht|Ht].
+      * rewrite (tempo_of_key z t Ht). exact E.
+      * apply in_flat_map in Ht as (e & He & Ht). rewrite (tempo_of_key e t Ht).
+        rewrite Forall_forall in Hz. apply Qle_trans with (key_of z); auto.
+    + cbn [flat_map]. rewrite (IH Hs'). destruct x as [m b| | |]; try reflexivity.
+      destruct z as [mz bz| | |]; cbn [tempo_of app]; try reflexivity.
+      cbn [insert_by fst]. cbn [key_of ev_measure] in E. rewrite E. reflexivity.
+Qed.
+
+Lemma tempo_sort l : flat_map tempo_of (sort_by key_of l) = sort_by fst (flat_map tempo_of l).
+Proof.
+  induction l as [|x r IH]; [reflexivity|]. cbn [sort_by fold_right].
+  change (fold_right (insert_by key_of) [] r) with (sort_by key_of r).
+  rewrite tempo_insert by apply sort_by_sorted. rewrite IH.
+  destruct x; reflexivity.
+Qed.
+
+(* ---- sorted set of note measures ---- *)
+Lemma dedup_adj_in l : forall x, In x (dedup_adj l) -> In x l.
+Proof.
+  induction l as [|a r IH]; intros x H; [exact H|]. cbn [dedup_adj] in H. destruct r as [|b r'].
+  - exact H.
+  - destruct (Qeq_bool a b); [right; apply IH; exact H|].
+    destruct H as [H|H]; [left; exact H|right; apply IH; exact H].
+Qed.
+
+Lemma dedup_adj_sorted l : sorted_q l -> sorted_q (dedup_adj l).
+Proof.
+  induction l as [|a r IH]; intro S; [exact I|]. destruct S as [Sa Sr]. cbn [dedup_adj]. destruct r as [|b r'].
+  - cbn. auto.
+  - destruct (Qeq_bool a b); [apply IH; exact Sr|].
+    cbn [sorted_q]. split; [|apply IH; exact Sr].
+    apply Forall_forall. intros x Hx. apply dedup_adj_in in Hx. rewrite Forall_forall in Sa. apply Sa. exact Hx.
+Qed.
+
+Lemma dedup_adj_complete l : forall m, In m l -> exists k, In k (dedup_adj l) /\ k == m.
+Proof.
+  induction l as [|a r IH]; intros m H; [destruct H|]. cbn [dedup_adj]. destruct r as [|b r'].
+  - destruct H as [<-|[]]. exists a. split; [left; reflexivity|reflexivity].
+  - destruct (Qeq_bool a b) eqn:E.
+    + destruct H as [<-|H]; [|apply IH; exact H].
+      destruct (IH b (or_introl eq_refl)) as (k & Hk & Ek). exists k. split; [exact Hk|].
+      apply Qeq_bool_iff in E. rewrite Ek, E. reflexivity.
+    + destruct H as [<-|H]; [exists a; split; [left; reflexivity|reflexivity]|].
+      destruct (IH m H) as (k & Hk & Ek). exists k. split; [right; exact Hk|exact Ek].
+Qed.
+
+Lemma sorted_key_id_sorted_q l : sorted_key (fun x : Q => x) l -> sorted_q l.
+Proof. induction l as [|a r IH]; intro S; [exact I|]. destruct S as [A B]. split; [exact A|apply IH; exact B]. Qed.
+
+Definition meas_of (e : ev) : list Q :=
+  match e with EHit m _ _ _ => [m] | EHold m tm _ _ _ => [m; tm] | _ => [] end.
+
+Lemma note_measures_spec notes :
+  sorted_q (note_measures_of notes)
+  /\ forall e m, In e notes -> In m (meas_of e) -> exists k, In k (note_measures_of notes) /\ k == m.
+Proof.
+  unfold note_measures_of. change (fun e => match e with EHit m _ _ _ => [m] | EHold m tm _ _ _ => [m; tm] | _ => [] end) with meas_of.
+  split.
+  - apply dedup_adj_sorted. apply sorted_key_id_sorted_q. apply sort_by_sorted.
+  - intros e m He Hm. apply dedup_adj_complete.
+    apply (Permutation_in _ (Permutation_sym (sort_by_perm (fun x => x) _))).
+    apply in_flat_map. exists e. split; assumption.
+Qed.
+
+(* ================================================================== 4. read_pkgs_fixed = integration *)
+Definition reduced (q : Q) : Prop := Qred q = q.
+Lemma Qred_reduced q : reduced (Qred q).
+Proof. unfold reduced. apply Qred_complete. apply Qred_correct. Qed.
+Lemma reduced_eq q r : reduced q -> q == r -> q = Qred r.
+Proof. intros H E. rewrite <- H. apply Qred_complete. exact E. Qed.
+
+Lemma advance_done s bm bv r s' : advance s bm bv r = Some s' ->
+  Forall reduced (sw_done s) -> Forall reduced (sw_done s').
+Proof.
+  unfold advance. destruct (qdiv_opt _ _) as [x|]; [|discriminate]. intros H F.
+  assert (E : sw_done s' = sw_done s ++ [Qred (sw_offset s + min_to_msec x)]).
+  { injection H as H. rewrite <- H. reflexivity. }
+  rewrite E. apply Forall_app. split; [exact F|]. constructor; [apply Qred_reduced|constructor].
+Qed.
+Lemma while_fixed_done rest : forall nm s s', while_fixed rest nm s = Some s' ->
+  Forall reduced (sw_done s) -> Forall reduced (sw_done s').
+Proof.
+  induction rest as [|[bm bv] r IH]; intros nm s s' H F; cbn [while_fixed] in H.
+  - injection H as <-. exact F.
+  - destruct (Qle_bool bm nm); [|injection H as <-; exact F].
+    destruct (advance s bm bv r) as [s1|] eqn:A; [|discriminate].
+    apply (IH nm s1 s' H). apply (advance_done _ _ _ _ _ A F).
+Qed.
+Lemma tail_fixed_done rest : forall s s', tail_fixed rest s = Some s' ->
+  Forall reduced (sw_done s) -> Forall reduced (sw_done s').
+Proof.
+  induction rest as [|[bm bv] r IH]; intros s s' H F; cbn [tail_fixed] in H.
+  - injection H as <-. exact F.
+  - destruct (advance s bm bv r) as [s1|] eqn:A; [|discriminate].
+    apply (IH s1 s' H). apply (advance_done _ _ _ _ _ A F).
+Qed.
+Lemma sweep_fixed_reduced nms : forall s dict s' dict', sweep_fixed nms s dict = Some (s', dict') ->
+  Forall reduced (sw_done s) -> Forall (fun kv => reduced (snd kv)) dict ->
+  Forall reduced (sw_done s') /\ Forall (fun kv => reduced (snd kv)) dict'.
+Proof.
+  induction nms as [|nm r IH]; intros s dict s' dict' H F D; cbn [sweep_fixed] in H.
+  - injection H as <- <-. auto.
+  - destruct (while_fixed (sw_rest s) nm s) as [s1|] eqn:W; [|discriminate].
+    destruct (qdiv_opt _ _) as [x|]; [|discriminate].
+    apply (IH _ _ _ _ H).
+    + apply (while_fixed_done _ _ _ _ W F).
+    + apply Forall_app. split; [exact D|]. constructor; [apply Qred_reduced|constructor].
+Qed.
+
+Section Level.
+Variable init : Q.
+Variable T : list (Q * Q).          (* the tempo events, sorted by position *)
+Hypothesis init_nz : ~ init == 0.
+Hypothesis T_nz : bpms_nonzero T.
+Hypothesis T_sorted : sorted_pos 0 T.
+
+Definition time (p : Q) : Q := ojn_time init T p.
+
+Lemma time_compat p q : p == q -> time p == time q.
+Proof. intro H. unfold time, ojn_time. apply ojn_time_go_compat; try reflexivity. exact H. Qed.
+
+Definition hit_row (e : ev) : list hitrow :=
+  match e with EHit m c v p => [mkHit c (Qred (time m)) v p] | _ => [] end.
+Definition hold_row (e : ev) : list holdrow :=
+  match e with EHold m tm c v p => [mkHold c (Qred (time m)) (Qred (time tm - time m)) v p] | _ => [] end.
+
+Definition dict_good (dict : list (Q * Q)) : Prop := Forall (fun kv => snd kv = Qred (time (fst kv))) dict.
+
+Lemma dict_get_good dict : dict_good dict -> forall m, (exists k, In k (map fst dict) /\ k == m) ->
+  dict_get dict m = Some (Qred (time m)).
+Proof.
+  induction dict as [|[k v] r IH]; intros G m (k0 & Hk & Ek); [destruct Hk|].
+  inversion G as [|? ? G1 G2]; subst. cbn [fst snd] in G1. cbn [dict_get].
+  destruct (Qeq_bool k m) eqn:E.
+  - apply Qeq_bool_iff in E. rewrite G1. f_equal. apply Qred_complete. apply time_compat. exact E.
+  - apply IH; [exact G2|]. exists k0. split; [|exact Ek]. cbn [map fst In] in Hk. destruct Hk as [<-|Hk]; [|exact Hk].
+    apply Qeq_bool_false_neq in E. contradiction.
+Qed.
+
+Lemma assign_notes_good dict notes : dict_good dict ->
+  (forall e m, In e notes -> In m (meas_of e) -> exists k, In k (map fst dict) /\ k == m) ->
+  assign_notes false dict notes = Some (flat_map hit_row notes, flat_map hold_row notes).
+Proof.
+  intros G. induction notes as [|e r IH]; intro H; [reflexivity|]. cbn [assign_notes].
+  rewrite IH by (intros e' m' He' Hm'; apply (H e' m'); [right; exact He'|exact Hm']).
+  destruct e as [m b|m c v p|m tm c v p|]; cbn [flat_map hit_row hold_row app]; try reflexivity.
+  - rewrite (dict_get_good dict G m); [reflexivity|]. apply (H (EHit m c v p)); [left; reflexivity|left; reflexivity].
+  - rewrite (dict_get_good dict G m) by (apply (H (EHold m tm c v p)); [left; reflexivity|left; reflexivity]).
+    rewrite (dict_get_good dict G tm) by (apply (H (EHold m tm c v p)); [left; reflexivity|right; left; reflexivity]).
+    unfold hold_length. cbn [andb].
+    assert (L : Qred (Qred (time tm) - Qred (time m)) = Qred (time tm - time m))
+      by (apply Qred_complete; rewrite !Qred_correct; reflexivity).
+    rewrite L. reflexivity.
+Qed.
+
+Lemma bpm_rows_good : forall bpms done,
+  Forall2 (fun o x => o = Qred (time (fst x))) done bpms ->
+  bpm_rows bpms done = map (fun t => mkBpm (Qred (time (fst t))) (snd t)) bpms.
+Proof.
+  intros bpms done F. induction F as [|o [m b] done' bpms' H _ IH]; [reflexivity|].
+  cbn [bpm_rows map fst snd]. cbn [fst] in H. rewrite H, IH. reflexivity.
+Qed.
+
+Lemma Forall2_compose_red done times bpms :
+  Forall reduced done -> Forall2 Qeq done times -> Forall2 (fun tm x => tm == time (fst x)) times bpms ->
+  Forall2 (fun o (x : Q * Q) => o = Qred (time (fst x))) done bpms.
+Proof.
+  intros R F1. revert bpms. induction F1 as [|o tm done' times' H1 _ IH]; intros bpms F2.
+  - inversion F2; subst. constructor.
+  - inversion F2 as [|? x ? bpms' H2 F2']; subst. inversion R as [|? ? R1 R2]; subst.
+    constructor; [|apply IH; assumption]. apply reduced_eq; [exact R1|]. rewrite H1. exact H2.
+Qed.
+
+(* the level reader on already extracted events: the tempo list it sweeps is T *)
+Theorem read_pkgs_fixed_spec pkgs :
+  Forall (fun e => e <> EMeasureChange) (concat pkgs) ->
+  sort_by fst (flat_map tempo_of (concat pkgs)) = T ->
+  exists hs ls,
+    read_pkgs_fixed pkgs init
+    = Some (mkOMap hs ls (mkBpm 0 init :: map (fun t => mkBpm (Qred (time (fst t))) (snd t)) T))
+    /\ Permutation hs (flat_map hit_row (concat pkgs))
+    /\ Permutation ls (flat_map hold_row (concat pkgs)).
+Proof.
+  intros Hmc HT. unfold read_pkgs_fixed, read_pkgs_with.
+  assert (E1 : existsb (fun e => match e with EMeasureChange => true | _ => false end) (concat pkgs) = false).
+  { destruct (existsb _ (concat pkgs)) eqn:X; [|reflexivity]. apply existsb_exists in X as (e & He & Pe).
+    rewrite Forall_forall in Hmc. specialize (Hmc e He). destruct e; try discriminate. congruence. }
+  rewrite E1. set (E := concat pkgs) in *. set (S := sort_by key_of E).
+  set (notes := filter (fun e => negb (is_bpm e)) S).
+  assert (EB : flat_map (fun e => match e with EBpm m b => [(m, b)] | _ => [] end) S = T).
+  { change (fun e => match e with EBpm m b => [(m, b)] | _ => [] end) with tempo_of. unfold S. rewrite tempo_sort. exact HT. }
+  rewrite EB.
+  destruct (note_measures_spec notes) as [Hsorted Hcomplete].
+  destruct (fixed_sweep_correct init T init_nz T_nz (note_measures_of notes) Hsorted)
+    as (s1 & dict & s2 & Hsw & Htl & Hdict & Hkeys & Hdone).
+  rewrite Hsw, Htl.
+  destruct (sweep_fixed_reduced _ _ _ _ _ Hsw (Forall_nil _) (Forall_nil _)) as [R1 RD].
+  pose proof (tail_fixed_done _ _ _ Htl R1) as R2.
+  assert (G : dict_good dict).
+  { unfold dict_good. unfold dict_ok in Hdict. rewrite Forall_forall in *. intros kv Hkv. apply reduced_eq; [apply RD; exact Hkv|].
+    apply (Hdict kv Hkv). }
+  rewrite (assign_notes_good dict notes G).
+  2:{ intros e m He Hm. rewrite Hkeys. apply (Hcomplete e m He Hm). }
+  assert (BR : bpm_rows T (sw_done s2) = map (fun t => mkBpm (Qred (time (fst t))) (snd t)) T).
+  { apply bpm_rows_good. apply (Forall2_compose_red _ (times_go (0, 0, init) T) _ R2 Hdone).
+    apply (tempo_time_is_integral T 0 0 init T_sorted). }
+  rewrite BR. eexists _, _. split; [reflexivity|].
+  assert (FH : forall (B : Type) (f : ev -> list B), (forall m b, f (EBpm m b) = []) ->
+               Permutation (flat_map f notes) (flat_map f E)).
+  { intros B f Hf. apply perm_trans with (flat_map f S).
+    - unfold notes. clear - Hf. induction S as [|e r IH]; [reflexivity|]. cbn [filter flat_map].
+      destruct e; cbn [is_bpm negb flat_map]; try (apply Permutation_app_head; exact IH). rewrite Hf. exact IH.
+    - apply Permutation_flat_map. apply sort_by_perm. }
+  split; apply FH; reflexivity.
+Qed.
+End Level.
+
+(* ================================================================== 5. one difficulty: bytes -> events *)
+Open Scope Z_scope.
+
+Fixpoint level_sem (pkgs : list fpkg) (hb : hbuf) : option (list (list ev) * hbuf) :=
+  match pkgs with
+  | [] => Some ([], hb)
+  | p :: r =>
+      match pkg_sem p hb with
+      | Some (es, hb1) =>
+          match level_sem r hb1 with Some (ps, hb2) => Some (es :: ps, hb2) | None => None end
+      | None => None
+      end
+  end.
+
+Definition tempos_ok (p : fpkg) : Prop :=
+  p_channel p = ref_ch_tempo -> sparse_tempos (p_measure p) (p_n p) (p_events p) <> None.
+
+Lemma read_level_enc pkgs : forall rest hb,
+  Forall (fun p => wf_pkg p = true /\ tempos_ok p) pkgs ->
+  read_level (length pkgs) (flat_map encode_pkg pkgs ++ rest) hb
+  = match level_sem pkgs hb with Some (ps, hb') => Some (ps, rest, hb') | None => None end.
+Proof.
+  induction pkgs as [|p r IH]; intros rest hb H; [reflexivity|].
+  inversion H as [|? ? [Hw Ht] Hr]; subst.
+  cbn [length read_level flat_map level_sem]. rewrite <- app_assoc.
+  rewrite (read_package_enc p _ hb Hw Ht).
+  destruct (pkg_sem p hb) as [[es hb1]|]; [|reflexivity].
+  rewrite (IH rest hb1 Hr). destruct (level_sem r hb1) as [[ps hb2]|]; reflexivity.
+Qed.
+
+Definition is_note_ch (ch : Z) : bool := (ref_ch_col0 <=? ch) && (ch <=? ref_ch_col_last).
+Definition flat_notes (pkgs : list fpkg) : list tev :=
+  flat_map (fun p => if is_note_ch (p_channel p)
+                     then map (pair (p_channel p - ref_ch_col0)) (sparse_notes (p_measure p) (p_n p) (p_events p))
+                     else []) pkgs.
+
+Definition is_note (e : ev) : bool := match e with EHit _ _ _ _ | EHold _ _ _ _ _ => true | _ => false end.
+
+Lemma walk_flat_notes l : forall hb E hb', walk_flat l hb = Some (E, hb') -> Forall (fun e => is_note e = true) E.
+Proof.
+  induction l as [|[col [[[p vol] pan] kind]] r IH]; intros hb E hb' H; cbn [walk_flat] in H.
+  - injection H as <- <-. constructor.
+  - destruct (kind =? ref_kind_tap).
+    { destruct (walk_flat r hb) as [[es h]|] eqn:W; [|discriminate]. injection H as <- <-.
+      constructor; [reflexivity|apply (IH _ _ _ W)]. }
+    destruct (kind =? ref_kind_head); [apply (IH _ _ _ H)|].
+    destruct (kind =? ref_kind_tail); [|apply (IH _ _ _ H)].
+    destruct (hb_pop hb col) as [[[[hm hvol] hpan] hb1]|]; [|discriminate].
+    destruct (walk_flat r hb1) as [[es h]|] eqn:W; [|discriminate]. injection H as <- <-.
+    constructor; [reflexivity|apply (IH _ _ _ W)].
+Qed.
+
+Lemma notes_no_tempo E : Forall (fun e => is_note e = true) E ->
+  flat_map tempo_of E = [] /\ filter (fun e => negb (is_bpm e)) E = E /\ Forall (fun e => e <> EMeasureChange) E.
+Proof.
+  induction 1 as [|e r He _ IH]; [repeat split; constructor|]. destruct IH as (A & B & C).
+  destruct e; try discriminate.
+  - cbn [flat_map tempo_of app filter is_bpm negb]. rewrite A, B.
+    split; [reflexivity|]. split; [reflexivity|]. constructor; [discriminate|exact C].
+  - cbn [flat_map tempo_of app filter is_bpm negb]. rewrite A, B.
+    split; [reflexivity|]. split; [reflexivity|]. constructor; [discriminate|exact C].
+Qed.
+
+Lemma bpm_evs_props ts :
+  flat_map tempo_of (bpm_evs ts) = nonzero_tempos ts
+  /\ filter (fun e => negb (is_bpm e)) (bpm_evs ts) = []
+  /\ Forall (fun e => e <> EMeasureChange) (bpm_evs ts).
+Proof.
+  unfold bpm_evs. induction (nonzero_tempos ts) as [|[m b] r (A & B & C)]; [repeat split; constructor|].
+  cbn [map flat_map tempo_of app filter is_bpm negb fst snd]. rewrite A, B.
+  repeat split; try reflexivity. constructor; [discriminate|exact C].
+Qed.
+
+Lemma nonzero_tempos_app a b : nonzero_tempos (a ++ b) = nonzero_tempos a ++ nonzero_tempos b.
+Proof. unfold nonzero_tempos. apply filter_app. Qed.
+
+(* the events of a difficulty: notes = the hold-buffer walk over the note slots in file order,
+   tempo events = the non-zero channel-1 slots in file order *)
+Lemma level_sem_walk pkgs : forall hb ts En hb',
+  all_some (map pkg_tempos pkgs) = Some ts ->
+  walk_flat (flat_notes pkgs) hb = Some (En, hb') ->
+  exists ps, level_sem pkgs hb = Some (ps, hb')
+    /\ flat_map tempo_of (concat ps) = nonzero_tempos (concat ts)
+    /\ filter (fun e => negb (is_bpm e)) (concat ps) = En
+    /\ Forall (fun e => e <> EMeasureChange) (concat ps).
+Proof.
+  induction pkgs as [|p r IH]; intros hb ts En hb' Hts Hw.
+  - cbn in Hts, Hw. injection Hts as <-. injection Hw as <- <-. exists []. cbn. repeat split; constructor.
+  - cbn [map all_some] in Hts. destruct (pkg_tempos p) as [t|] eqn:Et; [|discriminate].
+    destruct (all_some (map pkg_tempos r)) as [ts'|] eqn:Ets; [|discriminate]. injection Hts as <-.
+    unfold flat_notes in Hw. cbn [flat_map] in Hw. fold (flat_notes r) in Hw.
+    cbn [level_sem]. unfold pkg_sem. fold (is_note_ch (p_channel p)).
+    destruct (is_note_ch (p_channel p)) eqn:Nc.
+    + rewrite walk_flat_app in Hw. rewrite hb_walk_flat.
+      destruct (walk_flat (map (pair (p_channel p - ref_ch_col0)) (sparse_notes (p_measure p) (p_n p) (p_events p))) hb)
+        as [[e1 hb1]|] eqn:W1; [|discriminate].
+      destruct (walk_flat (flat_notes r) hb1) as [[e2 hb2]|] eqn:W2; [|discriminate]. injection Hw as <- <-.
+      destruct (IH hb1 ts' e2 hb2 eq_refl W2) as (ps & L & A & B & C). rewrite L.
+      exists (e1 :: ps). split; [reflexivity|].
+      destruct (notes_no_tempo e1 (walk_flat_notes _ _ _ _ W1)) as (A1 & B1 & C1).
+      assert (t = []).
+      { unfold pkg_tempos in Et. unfold is_note_ch in Nc. apply andb_true_iff in Nc as [N1 _]. apply Z.leb_le in N1.
+        destruct (Z.eqb_spec (p_channel p) ref_ch_tempo); [unfold ref_ch_tempo, ref_ch_col0 in *; lia|]. congruence. }
+      subst t. cbn [concat app]. rewrite flat_map_app, filter_app, A1, B1, A, B.
+      repeat split; try reflexivity. apply Forall_app; split; assumption.
+    + destruct (Z.eqb_spec (p_channel p) ref_ch_tempo) as [E|E].
+      * rewrite (pkg_tempos_own p E) in Et. rewrite Et.
+        destruct (IH hb ts' En hb' eq_refl Hw) as (ps & L & A & B & C). rewrite L.
+        exists (bpm_evs t :: ps). split; [reflexivity|].
+        destruct (bpm_evs_props t) as (A1 & B1 & C1).
+        cbn [concat]. rewrite flat_map_app, filter_app, A1, B1, A, B, nonzero_tempos_app.
+        repeat split; try reflexivity. apply Forall_app; split; assumption.
+      * destruct (IH hb ts' En hb' eq_refl Hw) as (ps & L & A & B & C). rewrite L.
+        exists ([] :: ps). split; [reflexivity|].
+        assert (t = []) by (unfold pkg_tempos in Et; destruct (Z.eqb_spec (p_channel p) ref_ch_tempo); congruence).
+        subst t. cbn [concat app]. repeat split; assumption.
+Qed.
+
+(* the column view of the flat note list is what the specification lists per column *)
+Lemma proj_flat_notes pkgs c : In c columns -> proj c (flat_notes pkgs) = flat_map (pkg_notes c) pkgs.
+Proof.
+  intro Hc. induction pkgs as [|p r IH]; [reflexivity|].
+  unfold flat_notes, proj. cbn [flat_map]. rewrite flat_map_app.
+  fold (flat_notes r). fold (proj c (flat_notes r)). rewrite IH. f_equal.
+  assert (Cr : 0 <= c <= 6) by (cbn in Hc; lia).
+  destruct (is_note_ch (p_channel p)) eqn:Nc.
+  - unfold is_note_ch in Nc. apply andb_true_iff in Nc as [N1 N2]. apply Z.leb_le in N1. apply Z.leb_le in N2.
+    destruct (Z.eq_dec (p_channel p) (ref_ch_col0 + c)) as [E|E].
+    + rewrite (pkg_notes_own p c E).
+      induction (sparse_notes (p_measure p) (p_n p) (p_events p)) as [|x l IHl]; [reflexivity|].
+      cbn [map flat_map fst snd]. replace (p_channel p - ref_ch_col0 =? c) with true by (symmetry; apply Z.eqb_eq; lia).
+      cbn [app]. f_equal. exact IHl.
+    + rewrite (pkg_notes_other p c E).
+      induction (sparse_notes (p_measure p) (p_n p) (p_events p)) as [|x l IHl]; [reflexivity|].
+      cbn [map flat_map fst snd]. replace (p_channel p - ref_ch_col0 =? c) with false by (symmetry; apply Z.eqb_neq; lia).
+      exact IHl.
+  - cbn [flat_map]. symmetry. apply pkg_notes_other. unfold is_note_ch in Nc.
+    unfold ref_ch_col0, ref_ch_col_last in *. apply andb_false_iff in Nc as [N|N]; [apply Z.leb_gt in N|apply Z.leb_gt in N]; lia.
+Qed.
+
+(* ================================================================== 6. one difficulty, end to end *)
+Open Scope Q_scope.
+
+Lemma all_some_inv {A} (l : list (option A)) r : all_some l = Some r -> Forall2 (fun o x => o = Some x) l r.
+Proof.
+  revert r; induction l as [|[a|] l IH]; intros r H; cbn [all_some] in H; try discriminate.
+  - injection H as <-. constructor.
+  - destruct (all_some l) as [r'|]; [|discriminate]. injection H as <-. constructor; [reflexivity|apply IH; reflexivity].
+Qed.
+
+Lemma position_nonneg m i n : (0 <= m)%Z -> (0 <= i)%Z -> (0 < n)%Z -> 0 <= position m i n.
+Proof.
+  intros Hm Hi Hn. unfold position. rewrite Qred_correct.
+  assert (0 <= inject_Z m) by (change 0 with (inject_Z 0); rewrite <- Zle_Qle; exact Hm).
+  assert (0 <= inject_Z i / inject_Z n).
+  { apply Qle_shift_div_l; [change 0 with (inject_Z 0); rewrite <- Zlt_Qlt; exact Hn|].
+    rewrite Qmult_0_l. change 0 with (inject_Z 0). rewrite <- Zle_Qle. exact Hi. }
+  lra.
+Qed.
+
+Lemma sparse_tempos_nonneg m n sp ts lo : (0 <= m)%Z -> (0 <= lo)%Z -> sparse_ok lo n sp = true ->
+  sparse_tempos m n sp = Some ts -> Forall (fun t => 0 <= fst t) ts.
+Proof.
+  intros Hm. revert ts lo. induction sp as [|[j bs] r IH]; intros ts lo Hlo Hs Ht.
+  - cbn in Ht. injection Ht as <-. constructor.
+  - apply sparse_ok_cons in Hs as (H1 & H2 & _ & _ & Hr). unfold sparse_tempos in Ht. cbn [map all_some fst snd] in Ht.
+    destruct (le_float32 bs) as [v|]; [|discriminate]. fold (sparse_tempos m n r) in Ht.
+    destruct (sparse_tempos m n r) as [ts'|] eqn:E; [|discriminate]. injection Ht as <-.
+    constructor; [cbn [fst]; apply position_nonneg; lia|]. apply (IH ts' (j + 1)%Z); auto. lia.
+Qed.
+
+Lemma level_tempos_nonneg pkgs ts : Forall (fun p => wf_pkg p = true) pkgs ->
+  all_some (map pkg_tempos pkgs) = Some ts -> Forall (fun t => 0 <= fst t) (concat ts).
+Proof.
+  intro Hw. revert ts. induction Hw as [|p r Hp _ IH]; intros ts H.
+  - cbn in H. injection H as <-. constructor.
+  - cbn [map all_some] in H. destruct (pkg_tempos p) as [t|] eqn:Et; [|discriminate].
+    destruct (all_some (map pkg_tempos r)) as [ts'|]; [|discriminate]. injection H as <-.
+    cbn [concat]. apply Forall_app. split; [|apply IH; reflexivity].
+    unfold pkg_tempos in Et. destruct (p_channel p =? ref_ch_tempo)%Z; [|injection Et as <-; constructor].
+    unfold wf_pkg in Hp. repeat (apply andb_true_iff in Hp as [Hp ?]). apply Z.leb_le in Hp.
+    apply (sparse_tempos_nonneg (p_measure p) (p_n p) (p_events p) t 0%Z); auto. lia.
+Qed.
+
+Lemma sorted_key_pos (l : list (Q * Q)) lo : sorted_key fst l -> Forall (fun t => lo <= fst t) l -> sorted_pos lo l.
+Proof.
+  revert lo; induction l as [|x r IH]; intros lo S F; [exact I|]. destruct S as [Sx Sr].
+  inversion F as [|? ? F1 F2]; subst. split; [exact F1|]. apply IH; [exact Sr|exact Sx].
+Qed.
+
+Lemma flat_map_comp {A B C} (f : B -> list C) (g : A -> list B) l :
+  flat_map f (flat_map g l) = flat_map (fun x => flat_map f (g x)) l.
+Proof. induction l as [|a r IH]; [reflexivity|]. cbn [flat_map]. rewrite flat_map_app, IH. reflexivity. Qed.
+
+Lemma pair_col_rows init T c evs : forall open,
+  pair_col (ojn_time init T) c evs open
+  = (flat_map (hit_row init T) (pair_ev c evs open), flat_map (hold_row init T) (pair_ev c evs open)).
+Proof.
+  induction evs as [|[[[p vol] pan] kind] r IH]; intro open; [reflexivity|]. cbn [pair_col pair_ev].
+  destruct (kind =? ref_kind_tap)%Z; [rewrite IH; reflexivity|].
+  destruct (kind =? ref_kind_head)%Z; [apply IH|].
+  destruct (kind =? ref_kind_tail)%Z; [|apply IH].
+  destruct open as [[[hp hvol] hpan]|]; [rewrite IH; reflexivity|apply IH].
+Qed.
+
+Lemma columns_nodup : NoDup columns.
+Proof. unfold columns. repeat (constructor; [cbn; intuition lia|]). constructor. Qed.
+
+Definition map_equiv (a b : omap) : Prop :=
+  Permutation (om_hits a) (om_hits b) /\ Permutation (om_holds a) (om_holds b) /\ om_bpms a = om_bpms b.
+
+Theorem level_composition pkgs init rest : wf_level pkgs = true -> ~ init == 0 ->
+  exists ps m d,
+    read_level (length pkgs) (flat_map encode_pkg pkgs ++ rest) [] = Some (ps, rest, [])
+    /\ read_pkgs_fixed ps init = Some m /\ denote_level init pkgs = Some d /\ map_equiv m d.
+Proof.
+  intros Hw Hinit. unfold wf_level in Hw. apply andb_true_iff in Hw as [Hw Hcols]. apply andb_true_iff in Hw as [Hpk Htp].
+  rewrite forallb_forall in Hpk, Hcols.
+  unfold wf_tempos in Htp. destruct (all_some (map pkg_tempos pkgs)) as [ts|] eqn:Ets; [|discriminate].
+  apply andb_true_iff in Htp as [Hpos _].
+  assert (Fpk : Forall (fun p => wf_pkg p = true) pkgs) by (apply Forall_forall; exact Hpk).
+  assert (Fok : Forall (fun p => wf_pkg p = true /\ tempos_ok p) pkgs).
+  { apply Forall_forall. intros p Hp. split; [apply Hpk; exact Hp|]. intros Ech.
+    rewrite <- (pkg_tempos_own p Ech). pose proof (all_some_inv _ _ Ets) as F2.
+    assert (In (pkg_tempos p) (map pkg_tempos pkgs)) by (apply in_map; exact Hp).
+    clear - F2 H. induction F2 as [|o x l r Ho _ IH]; [destruct H|]. destruct H as [<-|H]; [congruence|apply IH; exact H]. }
+  (* pairing *)
+  destruct (walk_flat_pairing columns columns_nodup (flat_notes pkgs) []) as (E & hb' & Wk & PE & Hnil).
+  { constructor. }
+  { unfold flat_notes. apply Forall_forall. intros x Hx. apply in_flat_map in Hx as (p & Hp & Hx).
+    destruct (is_note_ch (p_channel p)) eqn:Nc; [|destruct Hx].
+    apply in_map_iff in Hx as (y & <- & _). cbn [fst]. unfold is_note_ch, ref_ch_col0, ref_ch_col_last in *.
+    apply andb_true_iff in Nc as [N1 N2]. apply Z.leb_le in N1. apply Z.leb_le in N2. cbn. lia. }
+  { intros c Hc. cbn [hb_get is_some]. rewrite (proj_flat_notes pkgs c Hc).
+    specialize (Hcols c Hc). unfold wf_column in Hcols. apply andb_true_iff in Hcols as [_ H]. exact H. }
+  { reflexivity. }
+  subst hb'.
+  destruct (level_sem_walk pkgs [] ts E [] Ets Wk) as (ps & Lsem & Htempo & Hfilter & Hmc).
+  exists ps.
+  set (T := sort_by fst (nonzero_tempos (concat ts))).
+  assert (Tnz : bpms_nonzero T).
+  { unfold bpms_nonzero, T. apply (Permutation_Forall (Permutation_sym (sort_by_perm fst _))).
+    unfold nonzero_tempos. apply Forall_forall. intros t Ht. apply filter_In in Ht as [_ Ht].
+    apply negb_true_iff in Ht. apply Qeq_bool_false_neq. exact Ht. }
+  assert (Tsorted : sorted_pos 0 T).
+  { apply sorted_key_pos; [apply sort_by_sorted|].
+    unfold T. apply (Permutation_Forall (Permutation_sym (sort_by_perm fst _))).
+    pose proof (level_tempos_nonneg pkgs ts Fpk Ets) as F. unfold nonzero_tempos.
+    apply Forall_forall. intros t Ht. apply filter_In in Ht as [Ht _]. rewrite Forall_forall in F. apply F. exact Ht. }
+  destruct (read_pkgs_fixed_spec init T Hinit Tnz Tsorted ps Hmc) as (hs & ls & Hread & Phs & Pls).
+  { rewrite Htempo. reflexivity. }
+  eexists _, _. split; [|split; [exact Hread|]].
+  { rewrite (read_level_enc pkgs rest [] Fok), Lsem. reflexivity. }
+  unfold denote_level. rewrite Ets. fold T. split; [reflexivity|].
+  unfold map_equiv. cbn [om_hits om_holds om_bpms].
+  assert (Rows : forall (B : Type) (f : ev -> list B), (forall m b, f (EBpm m b) = []) ->
+            forall l, Permutation l (flat_map f (concat ps)) ->
+            Permutation l (flat_map (fun c => flat_map f (pair_ev c (flat_map (pkg_notes c) pkgs) None)) columns)).
+  { intros B f Hf l Pl. apply perm_trans with (flat_map f (concat ps)); [exact Pl|].
+    apply perm_trans with (flat_map f E).
+    - rewrite <- Hfilter. clear - Hf. induction (concat ps) as [|e r IH]; [reflexivity|]. cbn [filter flat_map].
+      destruct e; cbn [is_bpm negb flat_map]; try (apply Permutation_app_head; exact IH). rewrite Hf. exact IH.
+    - apply perm_trans with (flat_map f (flat_map (fun c => pair_ev c (proj c (flat_notes pkgs)) (hb_get [] c)) columns)).
+      + apply Permutation_flat_map. exact PE.
+      + rewrite flat_map_comp. rewrite (flat_map_ext_in _ (fun c => flat_map f (pair_ev c (flat_map (pkg_notes c) pkgs) None))); [reflexivity|].
+        intros c Hc. rewrite (proj_flat_notes pkgs c Hc). reflexivity. }
+  split; [|split].
+  - rewrite flat_map_concat_map, map_map, <- flat_map_concat_map.
+    rewrite (flat_map_ext_in _ (fun c => flat_map (hit_row init T) (pair_ev c (flat_map (pkg_notes c) pkgs) None))).
+    + apply Rows; [reflexivity|exact Phs].
+    + intros c _. rewrite pair_col_rows. reflexivity.
+  - rewrite flat_map_concat_map, map_map, <- flat_map_concat_map.
+    rewrite (flat_map_ext_in _ (fun c => flat_map (hold_row init T) (pair_ev c (flat_map (pkg_notes c) pkgs) None))).
+    + apply Rows; [reflexivity|exact Pls].
+    + intros c _. rewrite pair_col_rows. reflexivity.
+  - reflexivity.
+Qed.
+
+(* ================================================================== 7. the whole file *)
+Lemma read_levels_enc levels init : ~ init == 0 -> forall rest,
+  Forall (fun l => wf_level l = true) levels ->
+  exists lv ms ds,
+    read_levels (map (fun l => Z.of_nat (length l)) levels) (flat_map (flat_map encode_pkg) levels ++ rest) [] = Some lv
+    /\ all_some (map (fun pk => read_pkgs_with true false pk init) lv) = Some ms
+    /\ all_some (map (denote_level init) levels) = Some ds
+    /\ Forall2 map_equiv ms ds.
+Proof.
+  intros Hinit. induction levels as [|l r IH]; intros rest H.
+  - exists [], [], []. cbn. repeat split; constructor.
+  - inversion H as [|? ? Hl Hr]; subst. cbn [map read_levels flat_map]. rewrite Nat2Z.id, <- app_assoc.
+    destruct (level_composition l init (flat_map (flat_map encode_pkg) r ++ rest) Hl Hinit) as (ps & m & d & R1 & R2 & R3 & R4).
+    rewrite R1. destruct (IH rest Hr) as (lv & ms & ds & L1 & L2 & L3 & L4). rewrite L1.
+    exists (ps :: lv), (m :: ms), (d :: ds). cbn [map all_some].
+    change (read_pkgs_with true false ps init) with (read_pkgs_fixed ps init). rewrite R2, L2, R3, L3.
+    repeat split; try reflexivity. constructor; assumption.
+Qed.
+
+Lemma firstn_skipn_len {A} (a b : list A) n : length a = n -> firstn n (a ++ b) = a /\ skipn n (a ++ b) = b.
+Proof.
+  intro H. subst n. rewrite firstn_app, skipn_app, firstn_all, skipn_all, Nat.sub_diag. cbn [firstn skipn app].
+  rewrite app_nil_r. split; reflexivity.
+Qed.
+
+(* THE composition theorem: for every well-formed abstract file F and any trailing bytes, the reader
+   applied to the laid-out bytes succeeds and returns what F denotes: same header, and per difficulty the
+   same hits and long notes up to row order and the same tempo rows *)
+Theorem ojn_read_fixed_denotes : Tables.c07.layout = ref_layout ->
+  forall f trail, wf_file f = true ->
+  exists o d, read_fixed (encode_file f ++ trail) = Some o /\ ojn_denote f = Some d
+    /\ os_hdr o = os_hdr d /\ Forall2 map_equiv (os_maps o) (os_maps d).
+Proof.
+  intros L f trail Hw. unfold wf_file in Hw.
+  apply andb_true_iff in Hw as [Hw Hlv]. apply andb_true_iff in Hw as [Hw Hpc]. apply andb_true_iff in Hw as [Hh Hbpm].
+  pose proof (encode_header_length (f_hdr f) (package_counts f) Hh Hpc) as Len.
+  unfold read_fixed, read_with, encode_file. rewrite <- app_assoc.
+  destruct (firstn_skipn_len (encode_header (f_hdr f) (package_counts f))
+              (flat_map (flat_map encode_pkg) (f_levels f) ++ trail) 300 Len) as [F1 F2].
+  rewrite F1, F2. rewrite <- (app_nil_r (encode_header (f_hdr f) (package_counts f))).
+  rewrite (ojn_header_decodes L (f_hdr f) (package_counts f) [] Hh Hpc).
+  unfold ojn_denote. unfold hdr_bpm_pos in Hbpm.
+  destruct (denote_hdr (f_hdr f) (package_counts f)) as [h|] eqn:Dh.
+  2:{ exfalso. unfold denote_hdr in Dh. unfold wf_hdr in Hh.
+      repeat match goal with H : _ && _ = true |- _ => apply andb_true_iff in H as [? ?] end.
+      repeat match goal with H : f32_finite _ = true |- _ => apply f32_finite_some in H as [? _] end.
+      repeat match goal with H : f32_of_bits _ = Some _ |- _ => rewrite H in Dh end. discriminate. }
+  assert (Hb : oh_bpm h = f32_val (fh_bpm (f_hdr f)) /\ oh_package_count h = package_counts f).
+  { unfold denote_hdr in Dh. destruct (f32_of_bits (fh_encode_version (f_hdr f))); [|discriminate].
+    destruct (f32_of_bits (fh_bpm (f_hdr f))) as [b|] eqn:Eb; [|discriminate].
+    apply f32_of_bits_some in Eb as [-> _]. injection Dh as <-. split; reflexivity. }
+  destruct Hb as [Hb1 Hb2].
+  assert (Hinit : ~ oh_bpm h == 0).
+  { rewrite Hb1. destruct (f32_of_bits (fh_bpm (f_hdr f))) as [b|] eqn:Eb; [|discriminate].
+    apply f32_of_bits_some in Eb as [-> _]. apply Qlt_bool_iff in Hbpm. intro C. rewrite C in Hbpm. apply (Qlt_irrefl 0). exact Hbpm. }
+  rewrite Hb2. unfold package_counts at 1.
+  destruct (read_levels_enc (f_levels f) (oh_bpm h) Hinit trail) as (lv & ms & ds & L1 & L2 & L3 & L4).
+  { apply Forall_forall. rewrite forallb_forall in Hlv. exact Hlv. }
+  rewrite L1, L2, L3. exists (mkOSet h ms), (mkOSet h ds). repeat split; auto.
+Qed.
+
+(* corollary in the declarative vocabulary of the specification: the property statement at tolerance 0 *)
+Lemma q_close_refl a : q_close 0 a a = true.
+Proof.
+  unfold q_close. apply Qle_bool_iff. setoid_replace (a - a) with 0 by ring. apply Qle_refl.
+Qed.
+Lemma hit_close_refl x : hit_close 0 x x = true.
+Proof. unfold hit_close. rewrite !Z.eqb_refl, q_close_refl. reflexivity. Qed.
+Lemma hold_close_refl x : hold_close 0 x x = true.
+Proof. unfold hold_close. rewrite !Z.eqb_refl, q_close_refl. change (0 + 0) with 0. rewrite q_close_refl. reflexivity. Qed.
+Lemma bpm_close_refl x : bpm_close 0 x x = true.
+Proof. unfold bpm_close. rewrite q_close_refl. rewrite (proj2 (Qeq_bool_iff _ _) (Qeq_refl _)). reflexivity. Qed.
+
+Lemma rows_match_perm {A} (close : A -> A -> bool) (a b : list A) :
+  (forall x, close x x = true) -> Permutation a b -> rows_match (fun x y => close x y = true) b a.
+Proof.
+  intros R P. exists b. split; [exact P|]. clear P. induction b; constructor; auto.
+Qed.
+
+Lemma zlist_eqb_refl l : zlist_eqb l l = true.
+Proof. induction l; cbn; [reflexivity|]. rewrite Z.eqb_refl. exact IHl. Qed.
+Lemma hdr_eqb_refl h : hdr_eqb h h = true.
+Proof.
+  unfold hdr_eqb. rewrite !Z.eqb_refl, !zlist_eqb_refl.
+  rewrite !(proj2 (Qeq_bool_iff _ _) (Qeq_refl _)). reflexivity.
+Qed.
+
+Theorem ojn_read_fixed_meets_spec : Tables.c07.layout = ref_layout ->
+  forall f trail, wf_file f = true -> OjnSpec 0 f (read_fixed (encode_file f ++ trail)).
+Proof.
+  intros L f trail Hw. destruct (ojn_read_fixed_denotes L f trail Hw) as (o & d & R & D & Hh & Hm).
+  unfold OjnSpec. exists d, o. split; [exact D|]. split; [exact R|]. split; [rewrite Hh; apply hdr_eqb_refl|].
+  clear - Hm. induction Hm as [|a b la lb (P1 & P2 & P3) _ IH]; constructor; [|exact IH].
+  unfold map_matches. split; [|split].
+  - apply rows_match_perm; [apply hit_close_refl|exact P1].
+  - apply rows_match_perm; [apply hold_close_refl|exact P2].
+  - rewrite P3. apply rows_match_perm; [apply bpm_close_refl|reflexivity].
+Qed.
+
+(* ================================================================== 8. a tempo event exactly at a note's position *)
+(* B.5: the time of a position integrates every tempo event at or before it.  Whether the event sitting
+   exactly AT the position is counted (<=) or not (<) cannot change the time: the segment it opens has
+   length zero there.  (The event's own time is its running time either way.)  So a reader that uses the
+   strict comparison in its sweep returns the same chart; the oracle rightly stays silent on it. *)
+Fixpoint ojn_time_go_strict (t0 p0 bpm : Q) (tempos : list (Q * Q)) (p : Q) : Q :=
+  match tempos with
+  | (p1, b1) :: rest =>
+      if Qlt_bool p1 p then ojn_time_go_strict (t0 + (p1 - p0) * 4 * beat_ms bpm) p1 b1 rest p
+      else t0 + (p - p0) * 4 * beat_ms bpm
+  | [] => t0 + (p - p0) * 4 * beat_ms bpm
+  end.
+
+Theorem ojn_time_strict_eq l : forall t p0 b p, sorted_pos p0 l ->
+  ojn_time_go_strict t p0 b l p == ojn_time_go t p0 b l p.
+Proof.
+  induction l as [|[p1 b1] r IH]; intros t p0 b p S; cbn [ojn_time_go_strict ojn_time_go]; [reflexivity|].
+  destruct S as [S1 S2]. cbn [fst] in *.
+  destruct (Qlt_bool p1 p) eqn:Lt.
+  - apply Qlt_bool_iff in Lt. rewrite (proj2 (Qle_bool_iff p1 p) (Qlt_le_weak _ _ Lt)). apply IH. exact S2.
+  - apply Qlt_bool_false in Lt. destruct (Qle_bool p1 p) eqn:Le; [|reflexivity].
+    apply Qle_bool_iff in Le. assert (E : p1 == p) by (apply Qle_antisym; assumption).
+    rewrite stay_put; [rewrite E; reflexivity|exact E|].
+    destruct r as [|y r']; [exact I|]. destruct S2 as [A B]. split; [rewrite <- E; exact A|exact B].
+Qed.
